@@ -4,7 +4,7 @@ import vlib, flow, gen_trans
 
 H = os.path.join(vlib.ROOT, 'harness/kernel/device/acpi')
 vlib.register_const_dump('kernel', 'device/acpi', os.path.join(H, 'zz_verif_consts_test.go'))
-gen_trans.register('acpi_driver.json')   # Go -> Gallina translation of validTable / locateRSDT / mapACPITable / enumerateTables (Gen/Trans_acpi_driver.v, used by Acpi/DriverTrans.v; feature "acpi" of gen/gotrans/ext_acpi.go)
+gen_trans.register('acpi_driver.json')   # Go -> Gallina translation of validTable / locateRSDT / probeForACPI / mapACPITable / enumerateTables / DriverInit (Gen/Trans_acpi_driver.v, used by Acpi/DriverTrans.v; feature "acpi" of gen/gotrans/ext_acpi.go)
 
 PAGE = 4096
 # Host address zones the images live in (all free in the go test process, see harness):
@@ -562,7 +562,7 @@ class C14(flow.Spec):
         'the code selects the pointer by the root table\'s header revision and reads Ext.Dsdt at the Go struct offset (152, ACPI X_DSDT is at 140), which misses the DSDT for three input classes recorded as known findings '
         '(c14:dsdt:acpi-layout-fadt:rootrev-ge2, c14:dsdt:only32-fadt:rootrev-ge2, c14:dsdt:only64-fadt:rootrev-lt2); FADTs whose two pointers name different tables are agreement only; the model and the theorems (fadt_dsdt) follow the code',
         'kfmt renders the log lines (C15); the harness parses them back into (signature, address, length) events; printTableInfo lines are compared sorted (Go map order)',
-        'validTable, locateRSDT, mapACPITable, enumerateTables: the hand-written model is proved equal to the Gallina term gen/gotrans regenerates from acpi.go on every run (Props/C14_trans.v), for every memory image with '
+        'validTable, locateRSDT, probeForACPI, mapACPITable, enumerateTables, DriverInit (printTableInfo as a seam event; the driver value as a (non-nil, rsdtAddr, useXSDT) tuple): the hand-written model is proved equal to the Gallina term gen/gotrans regenerates from acpi.go on every run (Props/C14_trans.v), for every memory image with '
         'byte-valued cells, every search window / alignment that does not wrap, every failure pattern of mapFn / identityMapFn and enough fuel (pages + slots + 66 for the probe, 2^32 for the table walk); trusted for that tie: the translator incl. ext_acpi.go '
         '(struct-pointer field reads as loads at the Go compiler\'s offsets, the syntax-tree rewrites for `continue label` from the inner loop and for the deferred closure, Go map stores and kfmt.Fprintf as trace events, vmm.PageOffset as `& mask`), '
         'Lib/GoOps.v + Lib/GoStruct.v, the pairing field -> offset constant in gen/gotrans/acpi_driver.json, T.ld_of (a load = little-endian read of the model\'s bytes), T.abs (which model state a trace stands for: the order between seam calls, reports and '
